@@ -5,7 +5,7 @@ ID = "C04"
 QUICK_N = 2500
 THOROUGH_N = 40000
 SHARD = 400
-RULE = ("handler tables (<=4 entries, each a program of <=5 yields with blocking flags and reply-dependent branches) x "
+RULE = ("4% real-layer cases (an h2 client with 2-4 concurrent streams on a real HttpLayer, HTTP/1 or HTTP/2 upstream, hooks and connection attempts deferred and completed in a generated order: at quiescence no layer is paused, no completion sits in a foreign queue, every request went upstream once); otherwise handler tables (<=4 entries, each a program of <=5 yields with blocking flags and reply-dependent branches) x "
         "schedules of <=16 events mixing external events with completions for the awaited command (60%), for other "
         "outstanding/unknown commands (sibling completions) and duplicates; 45% of cases run the real NextLayer with a "
         "table-driven child and hook answers with/without a decision. Non-trivial = at least one event arrived while the "
@@ -45,6 +45,15 @@ def gen_sched(rng, n, nl):
 def gen(rng, n, tier):
     out = []
     for _ in range(n):
+        if rng.chance(0.04):
+            # real layers: an HTTP/2 client with several concurrent streams on a real HttpLayer; every stream layer blocks on
+            # its own commands (hooks, GetHttpConnection) while its siblings and its parent block on theirs.  Deferred hooks and
+            # connection attempts are completed in a generated order; at quiescence nothing may still be paused.
+            k = rng.randint(2, 4)
+            out.append({"k": "httpmux", "n": k, "upstream": rng.choice(["h1", "h1", "h2"]), "same_host": rng.chance(0.8),
+                        "defer_hooks": [rng.choice(["", "requestheaders", "request"]) for _ in range(k)],
+                        "defer_open": rng.chance(0.8), "order": [rng.below(1000) for _ in range(24)]})
+            continue
         table = [gen_ast(rng, rng.randint(1, 5)) for _ in range(rng.randint(1, 4))]
         nl = rng.chance(0.45)
         out.append({"k": "next" if nl else "layer", "aos": rng.chance(0.5), "table": table,
@@ -111,7 +120,89 @@ def _ctx():
                                              timestamp_start=1605699329, state=connection.ConnectionState.OPEN), opts)
 
 
+def _layers_of(top):
+    seen, todo = [], [top]
+    while todo:
+        l = todo.pop()
+        if l is None or any(l is x for x in seen) or not isinstance(l, layer.Layer):
+            continue
+        seen.append(l)
+        for attr in ("child_layer", "layer", "_child_layer"):
+            todo.append(getattr(l, attr, None))
+        for attr in ("streams",):
+            d = getattr(l, attr, None)
+            if isinstance(d, dict):
+                todo.extend(d.values())
+    return seen
+
+
+def run_httpmux(case):
+    import h2.connection, h2.config, h2.events
+    from lib.sansio import Driver, DEFER
+    from mitmproxy.proxy.layers import http as http_layers
+    from mitmproxy.proxy.layers.http import HTTPMode
+    k = case["n"]
+    state = {"flows": []}
+
+    def policy(hook, drv):
+        f = hook.args()[0]
+        if hook.name in ("requestheaders", "request"):
+            if not any(f is x for x in state["flows"]):
+                state["flows"].append(f)
+            i = [j for j, x in enumerate(state["flows"]) if x is f][0]
+            if i < k and case["defer_hooks"][i] == hook.name:
+                return DEFER
+
+    def connect(conn, drv):
+        if case["upstream"] == "h2":
+            conn.alpn = b"h2"
+        return DEFER if case["defer_open"] else None
+    d = Driver(lambda ctx: http_layers.HttpLayer(ctx, HTTPMode.regular), policy=policy, connect=connect,
+               client_kwargs={"alpn": b"h2"})
+    d.start()
+    cl = h2.connection.H2Connection(h2.config.H2Configuration(client_side=True))
+    cl.initiate_connection()
+    for i in range(k):
+        host = "example.com" if case["same_host"] else f"h{i}.example.com"
+        cl.send_headers(1 + 2 * i, [(":method", "GET"), (":scheme", "http"), (":authority", host), (":path", f"/{i}")], end_stream=True)
+    d.data(0, cl.data_to_send())
+    # complete everything that was deferred, in the generated order, until nothing is outstanding
+    picks = list(case["order"])
+    guard = 0
+    while d.deferred and d.crashed is None and guard < 200:
+        guard += 1
+        j = (picks.pop(0) if picks else 0) % len(d.deferred)
+        d.complete(d.deferred[j])
+    paused, foreign = [], []
+    for l in _layers_of(d.layer):
+        if l._paused is not None:
+            paused.append([type(l).__name__, type(l._paused.command).__name__])
+        for ev in l._paused_event_queue:
+            if isinstance(ev, events.CommandCompleted):
+                foreign.append([type(l).__name__, type(ev).__name__])
+    sent_paths = []
+    if case["upstream"] == "h1":
+        for t in d.trace:
+            if t[0] == "send" and t[1] >= 1:
+                b = bytes.fromhex(t[2])
+                if b.startswith(b"GET /"):
+                    sent_paths.append(b.split(b" ")[1].decode())
+    else:
+        for ci in range(1, len(d.conns)):
+            sv = h2.connection.H2Connection(h2.config.H2Configuration(client_side=False, validate_inbound_headers=False))
+            try:
+                for ev in sv.receive_data(d.sent(ci)):
+                    if isinstance(ev, h2.events.RequestReceived):
+                        sent_paths.append(dict((a if isinstance(a, str) else a.decode(), b if isinstance(b, str) else b.decode()) for a, b in ev.headers)[":path"])
+            except Exception as e:
+                sent_paths.append("unparsable:" + type(e).__name__)
+    return {"paused": paused, "foreign": foreign, "sent_paths": sent_paths, "crashed": d.crashed, "opens": sum(1 for t in d.trace if t[0] == "open"),
+            "hooks": d.hook_names()}
+
+
 def run_impl(case):
+    if case["k"] == "httpmux":
+        return run_httpmux(case)
     ctx = _ctx()
     child = TL(ctx, case["table"])
     nl = None
@@ -239,6 +330,8 @@ def c_tr(log):
 
 
 def coq_case(case, obs):
+    if case["k"] == "httpmux":
+        return None
     table = clist([c_ast(a) for a in case["table"]], "ast")
     evs = clist([c_ev(e) for e in case["evs"]], "event")
     out = clist([c_cmd(c) for c in obs["out"]], "cmd")
@@ -253,6 +346,17 @@ def coq_case(case, obs):
 # ------------------------------------------------------------------ oracle (property on the implementation)
 def oracle(case, obs):
     v = []
+    if case["k"] == "httpmux":
+        if obs["crashed"]:
+            return [{"key": "real-layer-crash", "what": f"HttpLayer raised {obs['crashed']}"}]
+        if obs["foreign"]:
+            v.append({"key": "foreign-completion-queued", "what": f"at quiescence a paused layer holds a command completion in its event queue: {obs['foreign'][:3]} (a completion was delivered to a layer that did not issue the command)"})
+        if obs["paused"]:
+            v.append({"key": "never-resumed", "what": f"every deferred hook and connection attempt was completed, yet layers are still paused: {obs['paused'][:3]}"})
+        want = sorted(f"/{i}" for i in range(case["n"]))
+        if sorted(obs["sent_paths"]) != want:
+            v.append({"key": "stream-not-resumed-with-own-completion", "what": f"requests {want} were made on {case['n']} concurrent streams, upstream saw {sorted(obs['sent_paths'])}"})
+        return v
     if any(c[2] == "b" for c in obs["out"]):
         v.append({"key": "blocking-leaks", "what": "a command left the layer with blocking=True"})
     # bracket discipline in the child/test layer log
@@ -304,12 +408,16 @@ def oracle(case, obs):
 
 
 def nontrivial(case, obs):
+    if case["k"] == "httpmux":
+        return len(obs["sent_paths"]) >= 2
     if case["k"] == "layer":
         return any(l[0] == "R" for l in obs["log"]) and len(obs["log"]) > 3
     return obs["chosen"] and len(obs["delivered"]) > 1
 
 
 def classify(case, obs):
+    if case["k"] == "httpmux":
+        return ["httpmux", "httpmux-" + case["upstream"], "httpmux-opens-%d" % min(obs["opens"], 4)]
     t = [case["k"]]
     if any(l[0] == "R" for l in obs["log"]):
         t.append("resumed")
